@@ -221,7 +221,16 @@ def r5_chain_recorded_per_handler(ctx):
     chain_recorded_per_handler(ctx, 'C05.R5', 'handler_id2middleware_ids', 'middleware chain')
 
 
+def r6_a_nested_blueprint_stays_one_component(ctx):
+    ctx.rule('C05.R6', 'shared with C19.R3: what scopes a middleware is the NestedBlueprint component its blueprint was nested as. The runtime builder only ever '
+             'pushes ONE component per registration call onto the component list: `nest` never splices the child\'s components into the parent '
+             '(a "route group" fast path that does lets a trailing middleware of the child run for everything the parent registers afterwards).')
+    from .c19 import component_list_only_pushed
+    component_list_only_pushed(ctx, 'C05.R6')
+
+
 def check(ctx):
+    r6_a_nested_blueprint_stays_one_component(ctx)
     r5_chain_recorded_per_handler(ctx)
     r1_snapshots(ctx)
     r2_chain_per_handler(ctx)
